@@ -47,6 +47,51 @@ def angle(a, b):
     return float(np.arccos(max(-1.0, min(1.0, c))))
 
 
+def energy_filter_history(ctx, label, orb, mu):
+    """History: compute, then the SAME compute on the same Manifold object with a TIGHTER energy tolerance placed in a gap of the measured
+    Jacobi deviations (low-order fixed-step integration, so the deviations are well above rounding): every trajectory retained by the
+    second call must respect the NEW tolerance — the filter's outcome is part of what a memo stores."""
+    from hiten.system.manifold import Manifold
+    for stable, direction in ((True, "positive"), (False, "negative")):
+        man = Manifold(orb, stable=stable, direction=direction)
+        kw = dict(step=1.0 / 12, integration_fraction=0.3, displacement=1e-6, dt=0.01, method="fixed", order=4, show_progress=False)
+        tag = ("stable" if stable else "unstable") + ":" + direction
+        try:
+            man.compute(energy_tol=1e-6, **kw)
+            first = list(man.trajectories or [])
+        except Exception as exc:
+            ctx.check(False, "0:manifold computed", {"orbit": label, "branch": tag, "error": repr(exc)[:300]})
+            continue
+
+        def devs(trs):
+            out = []
+            for tr in trs:
+                C = -2 * ref.energy_many(np.asarray(tr.states, dtype=float), mu)
+                out.append(float(np.max(np.abs(C - C[0])) / abs(C[0])))
+            return np.array(out)
+        dv = np.sort(devs(first))
+        dv = dv[dv > 1e-13]
+        gaps = [(dv[i], dv[i + 1]) for i in range(len(dv) - 1) if dv[i + 1] >= 2.0 * dv[i]]
+        ctx.case(f"energy-filter-history:{tag}", [label, tag], nontrivial=bool(gaps))
+        if not gaps:
+            ctx.count("6b:no gap (factor 2) in the measured Jacobi deviations — tighter-tolerance recompute not decidable")
+            continue
+        lo_, hi_ = gaps[len(gaps) // 2]
+        tight = float(np.sqrt(lo_ * hi_))
+        try:
+            man.compute(energy_tol=tight, **kw)
+            kept = list(man.trajectories or [])
+        except Exception:
+            ctx.count("6b:recompute with a tighter energy tolerance declined (raised) — accepted")
+            continue
+        d2 = devs(kept)
+        worst = float(d2.max()) if len(d2) else 0.0
+        ctx.check(worst <= 1.35 * tight,
+                  "6b:after recomputing with a tighter energy tolerance every retained trajectory keeps its Jacobi constant within the NEW tolerance",
+                  {"orbit": label, "branch": tag, "first_energy_tol": 1e-6, "second_energy_tol": tight, "deviations_first_compute": dv.tolist(),
+                   "retained_first": len(first), "retained_second": len(kept), "worst_deviation_after_second_compute": worst})
+
+
 def check_orbit(ctx, label, orb, mu, n_phase, displacement, method, order):
     from hiten.system.manifold import Manifold
     x0 = np.asarray(orb.initial_state, dtype=float)
@@ -230,6 +275,14 @@ def run(ctx):
         ctx.count("P:orbit described from a phase off the symmetry plane examined")
     for j, rec in enumerate(corrected[: ctx.pick(1, 3)]):
         guarded(ctx, f"rephased {j}", rephased, rec, [0.3, 0.62, 0.17][j % 3])
+    for j, rec in enumerate(corrected[: ctx.pick(2, 4)]):
+        from hiten.system.orbits.base import GenericOrbit
+        def efh(rec=rec):
+            label, sysm, pt, x0, T = rec[:5]
+            o = GenericOrbit(pt, initial_state=x0)
+            o.period = T
+            energy_filter_history(ctx, label, o, float(sysm.mu))
+        guarded(ctx, f"energy filter history {j}", efh)
 
     # an orbit whose hyperbolic multipliers are negative (NRHO): sign conventions and normalisations that silently assume lambda > 0
     # are only exercised here; supplied through GenericOrbit with a harness-corrected state and period
@@ -256,3 +309,4 @@ def run(ctx):
     if ctx.nshards == 1:
         ctx.require("N:orbit with negative hyperbolic multipliers examined", 1)
         ctx.require("P:orbit described from a phase off the symmetry plane examined", 1)
+        ctx.require("6b:after recomputing with a tighter energy tolerance every retained trajectory keeps its Jacobi constant within the NEW tolerance", 1)
